@@ -185,7 +185,7 @@ Proof.
   unfold out_path, make_path, ns_path, pstrop. rewrite !app_assoc, !removelast_last. split; reflexivity.
 Qed.
 
-(* ---- BEFORE fix f08a0a1 (ek = strop) the model lost a type when two sibling namespaces fold: F-NS-FOLD (fixed) ---------- *)
+(* ---- fold witness (class -> _class): the pre-fix behaviour is documented in History/C11_history.v ---------- *)
 Definition w_class : str := [99; 108; 97; 115; 115].                  (* "class" *)
 Definition w_strop (x : str) : str := if str_eqb x w_class then 95 :: w_class else x.   (* class -> _class *)
 Definition w_ns : str := [110; 115].                                   (* "ns" *)
@@ -203,16 +203,6 @@ Proof.
   - discriminate.
   - intros l; apply Permutation_refl.
 Qed.
-
-Lemma w_fold : ns_fold w_strop [w_Q; w_R] = true.
-Proof. vm_compute. reflexivity. Qed.
-
-Lemma w_dropped :
-  let b := build w_strop w_strop true w_ext w_out w_id [w_Q; w_R] in
-  existsb (fun tp => ty_eqb (fst tp) w_R) (get_all_datatypes w_id (fst b) (snd b)) = false /\
-  find_output_path w_strop w_id (fst b) [w_ns] w_R = None /\
-  In [w_ns; 95 :: w_class] (keys (fst b)).
-Proof. vm_compute. split; [reflexivity | split; [reflexivity | right; left; reflexivity]]. Qed.
 
 (* the same input under the current code: both types are enumerated and found *)
 Lemma w_kept_now :
